@@ -412,6 +412,23 @@ def build_item(repo, ext, unit_path):
                     continue
             k += 1
         if ext.methods is not None:
+            # associated consts are omitted with the unlisted methods (T6)
+            for mc in re.finditer(r'^[ \t]*(?:pub(?:\([a-z]+\))?\s+)?const\s+([A-Za-z_][A-Za-z0-9_]*)\s*:', text[bo + 1:bc], re.M):
+                cs = bo + 1 + mc.start()
+                if not code[cs] or any(a <= cs < b for (_, a, b, _) in fn_spans.values()):
+                    continue
+                k2 = cs
+                while k2 < bc:
+                    if code[k2]:
+                        if text[k2] in '({[':
+                            k2 = match_close(text, code, k2)
+                        elif text[k2] == ';':
+                            break
+                    k2 += 1
+                if mc.group(1) not in ext.methods:
+                    m2 = re.match(r'[ \t]*\n(?:[ \t]*\n)?', text[k2 + 1:])
+                    edits.append((cs, k2 + 1 + (m2.end() if m2 else 0), ''))
+                    omitted.append('const ' + mc.group(1))
             for nm, (ks, fs, fe, parts) in fn_spans.items():
                 if nm not in ext.methods:
                     ls = text.rfind('\n', 0, ks) + 1
@@ -596,6 +613,10 @@ def build_item(repo, ext, unit_path):
             continue
         if t8_fns and any(a_ >= sp_[0] and b_ <= sp_[1] for sp_ in t8_spans):
             drop_report.append({'rule': 'T8', 'line': src.line_of(a_), 'text': 'body of contract-only fn'})
+            continue
+        mconst = re.search(r'const\s+([A-Za-z_][A-Za-z0-9_]*)', d)
+        if mconst and ('const ' + mconst.group(1)) in t6_methods:
+            drop_report.append({'rule': 'T6', 'line': src.line_of(a_), 'text': 'const ' + mconst.group(1)})
             continue
         m = re.search(r'fn\s+([A-Za-z_][A-Za-z0-9_]*)', d)
         if m and m.group(1) in t6_methods:
